@@ -401,6 +401,7 @@ type Knobs struct {
 	JWTBearerIDOptional     bool              `json:"jb_id_optional,omitempty"`
 	JWTBearerIATOptional    bool              `json:"jb_iat_optional,omitempty"`
 	LegacyRevocationHandler bool              `json:"legacy_revocation_handler,omitempty"` // an extra revocation handler over an empty store is registered first
+	JWTScopeField           int               `json:"jwt_scope_field,omitempty"`           // Config.JWTScopeClaimKey: 0 unset (= list "scp"), 1 list, 2 string "scope", 3 both
 	CustomResponseMode      bool              `json:"custom_response_mode,omitempty"`      // Config.ResponseModeHandlerExtension announces the extra mode "sim_post" (a decorated form post)
 	DenyClient              string            `json:"deny_client,omitempty"`               // Config.ClientAuthenticationStrategy: the default strategy plus an operator deny-list holding this client id
 	JWTBearerSkipClientAuth bool              `json:"jb_skip_client_auth,omitempty"`
@@ -537,6 +538,7 @@ func (k *Knobs) BuildConfig(net *SimNet) *fosite.Config {
 		GrantTypeJWTBearerIssuedDateOptional: k.JWTBearerIATOptional,
 		GrantTypeJWTBearerCanSkipClientAuth:  k.JWTBearerSkipClientAuth,
 		OmitRedirectScopeParam:               k.OmitScopeParam,
+		JWTScopeClaimKey:                     jwt.JWTScopeFieldEnum(k.JWTScopeField),
 		UserCodeLength:                       k.UserCodeLen,
 		DeviceAuthTokenPollingInterval:       time.Duration(k.PollInterval) * time.Second,
 		// explicit so that the lazily-defaulting getters never write during a run
